@@ -8,7 +8,7 @@ import os
 D = "/verif/coq/Properties"
 IMPORTS = ("From CB Require Import Spec Unstable.\nFrom Coq Require Import Permutation.\n"
            "From CBP Require Import Step RefDefs C02Lemmas Arith AbsLemmas AllOps FaultDefs FaultPrims FaultDropA FaultDropB FaultUser\n"
-           "     Iters DrainP ExtendIo CmpHash Ctors PhysMoves MoreOps UnstableEq Access Views RefTruncate FillExtend FaultFrame SpecCorollaries ValueCorollaries FaultGeneric FaultHistory FaultConserve FaultDebugOps%s.\n")
+           "     Iters DrainP ExtendIo CmpHash Ctors PhysMoves MoreOps UnstableEq Access Views RefTruncate FillExtend FaultFrame SpecCorollaries ValueCorollaries FaultGeneric FaultHistory FaultConserve FaultDebugOps ContigAfter%s.\n")
 
 P = {}
 
@@ -266,6 +266,12 @@ P["C07"] = ("""C07 — all views of the contents agree; mutable views alias exac
 ])
 
 P["C07"] = (P["C07"][0], P["C07"][1], P["C07"][2] + [
+    ("C07_single_slice_after_make_contiguous", """forall s w,
+  WF s ->
+  exists sl s1,
+    make_contiguous s w = (Ok sl, s1, w) /\\ WF s1 /\\ abs s1 = abs s /\\
+    exists a b, as_slices s1 w = (Ok (a, b), s1, w) /\\ slen b = 0 /\\
+                sl_elems (items s1) a = abs s""", "make_contiguous_then_single_slice"),
     ("C07_as_mut_slices_distinct", """forall ws s w a b s' w',
   WF s -> exec (OAsMutSlicesSet ws) s w = (Ok (OutSlices a b), s', w') ->
   map fst (a ++ b) = map (phys s) (zseq 0 (Z.to_nat (size s))) /\\
